@@ -126,7 +126,7 @@ def TCell.isAnergic (t : TCell) : Bool := decide (t.anergyThr ≤ (t.anergy : In
 /-- which second signal the inspection ends up with: manual flag, overridden by a canary failure, overridden by
     a repeated anomaly (the streak including the current inspection) -/
 def signal2Of (t : TCell) (p : Peptide) (nonSelf : Bool) : Signal2 :=
-  if nonSelf && decide (t.repThr ≤ ((t.anomaly + 1 : Nat) : Int)) then .repeated
+  if nonSelf && decide (t.repThr ≤ (t.anomaly : Int) + 1) then .repeated
   else if canaryFails t.profile p then .canary
   else if t.flag then .manual
   else .absent
@@ -242,25 +242,29 @@ structure ThymusCfg where
 
 def mean (l : List Rat) : Rat := l.sum / (l.length : Rat)
 
+def rmax (a b : Rat) : Rat := if a ≤ b then b else a
+
+def rmin (a b : Rat) : Rat := if a ≤ b then a else b
+
 def lmax : List Rat → Rat
   | [] => 0
   | [x] => x
-  | x :: y :: r => max x (lmax (y :: r))
+  | x :: y :: r => rmax x (lmax (y :: r))
 
 def lmin : List Rat → Rat
   | [] => 0
   | [x] => x
-  | x :: y :: r => min x (lmin (y :: r))
+  | x :: y :: r => rmin x (lmin (y :: r))
 
 /-- `max(actual_std, reported_std, 0.01)` -/
 def combinedStd (values stds : List Rat) (actualStd : Rat) : Rat :=
-  max (max (if 1 < values.length then actualStd else 0) (if stds.isEmpty then 0 else mean stds)) (1 / 100)
+  rmax (rmax (if 1 < values.length then actualStd else 0) (if stds.isEmpty then 0 else mean stds)) (1 / 100)
 
 /-- `calc_bounds` -/
 def calcBounds (tol : Rat) (values stds : List Rat) (actualStd : Rat) : Rat × Rat :=
   (mean values - tol * combinedStd values stds actualStd, mean values + tol * combinedStd values stds actualStd)
 
-def errMaxOf (samples : List Peptide) : Rat := max (lmax (samples.map (·.errRate)) * 2) (1 / 20)
+def errMaxOf (samples : List Peptide) : Rat := rmax (lmax (samples.map (·.errRate)) * 2) (1 / 20)
 
 def canaryMinOf (samples : List Peptide) : Rat :=
   if (samples.filterMap (·.canary)).isEmpty then 0 else lmin (samples.filterMap (·.canary)) * (9 / 10)
